@@ -119,6 +119,10 @@ func (x *Exec) execInstr(fr *Frame, in ssa.Instruction, st *State) {
 		ml := x.heapGet(st, heapKeyMapL(mt), mt)
 		x.heapSet(st, heapKeyMapL(mt), mt, "(store "+ml+" "+ref+" 0)")
 		fr.vals[i] = V{T: i.Type(), S: ref}
+	case *ssa.MakeChan:
+		// a channel is a reference distinct from everything allocated before (its queue
+		// and the operations on it are outside the subset)
+		fr.vals[i] = V{T: i.Type(), S: x.newRef(st)}
 	case *ssa.MakeSlice:
 		n := x.toMathInt(x.value(fr, i.Len))
 		c := x.toMathInt(x.value(fr, i.Cap))
